@@ -105,6 +105,12 @@ def model_eval(model, expr):
 		if any(not (-n <= v < n) for v in expr['v']):
 			return 'err', (IndexError,)
 		return 'seq', [model[v] for v in expr['v']]
+	if t == 'range':
+		# a range object is a sequence of integers like any other
+		vals = list(range(expr['a'], expr['b'], expr['c']))
+		if any(not (-n <= v < n) for v in vals):
+			return 'err', (IndexError,)
+		return 'seq', [model[v] for v in vals]
 	if t == 'mask':
 		if len(expr['v']) != n:
 			if len(expr['v']) == 0 and expr['as'] in ('list', 'tuple'):
@@ -136,6 +142,8 @@ def build_index(np, expr):
 		if a.startswith('uint') and any(x < 0 for x in v):
 			a = 'int64'
 		return np.array(v, dtype=a)
+	if t == 'range':
+		return range(expr['a'], expr['b'], expr['c'])
 	if t == 'mask':
 		a = expr.get('as', 'list')
 		if a == 'list':
@@ -229,6 +237,8 @@ def _show(expr):
 		return f"{f(expr['a'])}:{f(expr['b'])}:{f(expr['c'])}"
 	if t in ('list', 'mask'):
 		return f"{expr['v']} as {expr.get('as', 'list')}"
+	if t == 'range':
+		return f"range({expr['a']}, {expr['b']}, {expr['c']})"
 	return f"<{expr['v']}>"
 
 
@@ -274,6 +284,11 @@ def enum_exprs(case):
 					yield {'t': 'slice', 'a': a, 'b': b, 'c': c, 'as': 'py'}
 		for a, b, c in ((None, None, -1), (-1, None, -1), (n, 0, -1), (0, n, 1), (1, n + 1, 2)):
 			yield {'t': 'slice', 'a': a, 'b': b, 'c': c, 'as': 'np'}
+		# every range object over the same bounds and steps (a range is an index sequence, not a slice: no clipping)
+		for a in range(-n - 1, n + 2):
+			for b in range(-n - 2, n + 3):
+				for c in [s_ for k in range(1, n + 2) for s_ in (k, -k)]:
+					yield {'t': 'range', 'a': a, 'b': b, 'c': c}
 	elif part == 'masks':
 		for m in (n - 1, n, n + 1):
 			if m < 0:
@@ -601,6 +616,7 @@ def expr_strategy(nmax_hint=12):
 		st.builds(lambda v, a, fit: {'t': 'mask', 'v': v, 'as': a, 'fit': fit}, st.lists(st.booleans(), max_size=12),
 		          st.sampled_from(['list', 'bool']), st.sampled_from([True, True, False])),
 		st.builds(lambda v: {'t': 'bad', 'v': v}, st.sampled_from(sorted(BAD))),
+		st.builds(lambda a, b, c: {'t': 'range', 'a': a, 'b': b, 'c': c}, r, st.one_of(r, st.just(-1), st.just(0)), st.sampled_from([1, -1, 2, -2, 3, -3])),
 	)
 
 
